@@ -79,35 +79,10 @@ Proof.
   repeat split; reflexivity.
 Qed.
 
-(* S2: the row the witness is found in is `loglevel` of an `event` block, guarded by ert.log_level *)
-Definition s2_shape (w : option (attr_row * guard)) : bool :=
-  match w with
-  | Some (r, g) => str_eqb (r_block r) (s2l "event") && str_eqb (r_attr r) (s2l "loglevel") &&
-                   str_eqb (guard_expr g) (s2l "ert.log_level")
-  | None => false
-  end.
-
-Lemma meta_rows_s2 : s2_shape (int_truthy_witness meta_rows) = true.
-Proof. vm_compute. reflexivity. Qed.
-
-Theorem loglevel_guard_refuted :
-  exists r g, In r meta_rows /\ In g (r_guards r) /\
-              r_block r = s2l "event" /\ r_attr r = s2l "loglevel" /\ guard_expr g = s2l "ert.log_level" /\
-              in_kind (kind_of_expr (guard_expr g)) (PInt 0) = true /\
-              configured (kind_of_expr (guard_expr g)) (PInt 0) = true /\
-              guard_passes g (PInt 0) = false.
-Proof.
-  pose proof meta_rows_s2 as S. destruct (int_truthy_witness meta_rows) as [[r g]|] eqn:W; [|discriminate].
-  destruct (int_truthy_witness_spec _ _ _ W) as [H1 [H2 [_ [H4 [H5 H6]]]]].
-  cbn [s2_shape] in S. apply andb_true_iff in S. destruct S as [S S3]. apply andb_true_iff in S. destruct S as [S1 S2].
-  exists r, g. repeat split; try assumption; apply PrefixProofs.str_eqb_true; assumption.
-Qed.
-
-(* every OTHER row is adequately guarded: the rows minus the S2 row pass the check *)
-Definition rows_but_loglevel : list attr_row :=
-  filter (fun r => negb (str_eqb (r_block r) (s2l "event") && str_eqb (r_attr r) (s2l "loglevel"))) meta_rows.
-
-Lemma other_rows_guards_ok : all_guards_ok rows_but_loglevel = true.
+(* obligation on the regenerated rows: EVERY row is adequately guarded (S2, the truthiness test on
+   ert.log_level, was repaired in /repo by a fix: commit; if it ever comes back this obligation
+   fails and int_truthy_witness gives the row) *)
+Lemma meta_rows_guards_ok : all_guards_ok meta_rows = true.
 Proof. vm_compute. reflexivity. Qed.
 
 Lemma meta_rows_quoted_ok : all_quoted_ok meta_rows = true.
@@ -116,9 +91,9 @@ Proof. vm_compute. reflexivity. Qed.
 Lemma meta_rows_required_present : all_required_present meta_rows = true.
 Proof. vm_compute. reflexivity. Qed.
 
-Theorem guards_adequate_partial :
-  forall r, In r rows_but_loglevel -> forall val, vals_in_kind r val ->
+Theorem guards_adequate_all :
+  forall r, In r meta_rows -> forall val, vals_in_kind r val ->
     ((forall g, In g (r_guards r) -> configured (kind_of_expr (guard_expr g)) (val (guard_expr g)) = true) ->
      row_emitted r val = true) /\
     (row_emitted r val = true -> forall g, In g (r_guards r) -> is_none (val (guard_expr g)) = false).
-Proof. exact (guards_adequate rows_but_loglevel other_rows_guards_ok). Qed.
+Proof. exact (guards_adequate meta_rows meta_rows_guards_ok). Qed.
